@@ -30,3 +30,10 @@ static int ref_edge(const int *g, int sc, const int *sp, int sf, int dc, const i
 static int ref_indeg(const int *g, int c, const int *p, int f) { (void)g; (void)c; (void)f; return p[0] == 0 ? 0 : 1; }
 static int ref_from_memory(const int *g, int c, const int *p, int f, int *co)
 { (void)g; (void)c; (void)f; (void)co; return p[0] == 0 ? 2 : 3; }
+
+/* run the real generated internal_init of every class (sets the key min/range fields, repositories) */
+static __parsec_Ex02_Chain_Task_task_t ref_init_task_Task;
+static void ref_init_all(REF_TP_T *tp)
+{
+    ref_init_task_Task.taskpool = (parsec_taskpool_t *)tp; Ex02_Chain_Task_internal_init(NULL, &ref_init_task_Task);
+}
